@@ -200,8 +200,10 @@ package migrate
 //@ spec func gvcNotClean(err error) bool { return errors.As(err, new(*NotCleanError)) }
 //@ spec func gvcForeignErr(err error) bool { return !GvcIs[*HistoryNonLinearError](err) && !GvcIs[*MissingMigrationError](err) }
 
+//@ spec func GvcFileOK(f File) bool { return f != nil && (!GvcIs[*LocalFile](f) || f.(*LocalFile) != nil) }
 //@ extern func (d Dir) Files() (fs []File, err error)
 //@   effect if err == nil { GvcFiles = fs }
+//@   ensures err == nil ==> (forall i int :: 0 <= i && i < len(fs) ==> GvcFileOK(fs[i]))
 //@   ensures gvcForeignErr(err)
 //@   ensures err == nil ==> GvcFresh(fs) || len(fs) == 0
 //@   ensures err == nil ==> (forall i int :: 0 <= i && i < len(fs) ==> fs[i] != nil)
@@ -222,6 +224,7 @@ package migrate
 
 //@ func FilesFromLastCheckpoint(dir Dir) (fs []File, err error)
 //@   trusted
+//@   ensures err == nil ==> (forall i int :: 0 <= i && i < len(fs) ==> GvcFileOK(fs[i]))
 //@   ensures gvcForeignErr(err)
 //@   ensures err == nil ==> (forall i int :: 0 <= i && i < len(fs) ==> fs[i] != nil)
 
@@ -230,6 +233,7 @@ package migrate
 //@   modifies struct(Revision), GvcStore, GvcWrites, GvcFiles, GvcRevs, GvcCleanErr, GvcCleanCalls
 //@   ensures nothing-pending-is-an-error: err == nil ==> len(fs) > 0
 //@   ensures error-returns-no-files: err != nil ==> len(fs) == 0
+//@   ensures files-nonnil: err == nil ==> (forall p int :: 0 <= p && p < len(fs) ==> fs[p] != nil)
 //@   ensures gate: GvcCleanCalls != old(GvcCleanCalls) && gvcNotClean(GvcCleanErr) && !e.allowDirty && e.baselineVer == "" ==>
 //@           err != nil && gvcNotClean(err) && GvcWrites == old(GvcWrites)
 //@   ensures clean-check-only-on-first-run: GvcCleanCalls != old(GvcCleanCalls) ==> len(GvcRevs) == 0
@@ -407,3 +411,8 @@ package migrate
 //@   ensures refused-snapshot-touches-nothing: GvcSnapErr != nil ==> err != nil && GvcDirty == old(GvcDirty) && GvcRestoreCalls == old(GvcRestoreCalls)
 //@   ensures always-restored: GvcSnapErr == nil ==> GvcRestoreCalls == old(GvcRestoreCalls) + 1 && !GvcSnapOpen && (GvcRestoreErr == nil ==> !GvcDirty)
 //@   ensures restore-error-reported: GvcSnapErr == nil && GvcRestoreErr != nil ==> err != nil
+
+//@ func NewExecutor(drv Driver, dir Dir, rrw RevisionReadWriter, opts ...ExecutorOption) (ex *Executor, err error)
+//@   trusted
+//@   ensures err == nil ==> ex != nil && GvcFresh(ex) && ex.drv == drv && ex.dir == dir && ex.rrw == rrw && ex.log != nil
+//@   ensures err == nil ==> drv != nil && dir != nil && rrw != nil
